@@ -193,8 +193,20 @@ class Run:
         self.query_maps = None
 
 
-def run_program(workdir, mode, extra=(), capture=True, cpus=None):
-    """run the real Program in this process with p_imap replaced by an in-process ordered map"""
+def _ordered_map(f, items, num_cpus=None, disable=None):
+    """in-process stand-in for p_tqdm.p_imap: ordered results; like the real one (multiprocessing.Pool) it rejects a worker count below 1"""
+    if num_cpus is not None and num_cpus < 1:
+        raise ValueError("Number of processes must be at least 1")
+    return map(f, items)
+
+
+OUTPUT_NAME_STYLES = ('out_{mode}.xmap', 'out_{mode}.tsv', 'aln_{mode}')
+
+
+def run_program(workdir, mode, extra=(), capture=True, cpus=None, style=0):
+    """run the real Program in this process with p_imap replaced by an in-process ordered map.
+    style varies what the option help allows but the samples never use: 0 = '-o x.xmap -c 1', 1 = an output name with another
+    extension, 2 = an output name without extension and no -c option (the default worker count)"""
     import warnings
     warnings.simplefilter('ignore')
     from src.args import Args
@@ -203,9 +215,9 @@ def run_program(workdir, mode, extra=(), capture=True, cpus=None):
     from src.extensions.messages import MultipleAlignmentResultRowsMessage
     import src.workflow_coordinator as wc
     if cpus is None:
-        wc.p_imap = lambda f, items, num_cpus=None, disable=None: map(f, items)
+        wc.p_imap = _ordered_map
     res = Run()
-    out = os.path.join(workdir, f"out_{mode}.xmap")
+    out = os.path.join(workdir, OUTPUT_NAME_STYLES[style % 3].format(mode=mode))
 
     class Catcher(Extension):
         messageType = MultipleAlignmentResultRowsMessage
@@ -215,7 +227,9 @@ def run_program(workdir, mode, extra=(), capture=True, cpus=None):
                 res.candidates.setdefault(m.query.moleculeId, []).append((m.alignment, m.query, m.reference, m.correlation))
 
     argv = ['-r', os.path.join(workdir, 'r.cmap'), '-q', os.path.join(workdir, 'q.cmap'), '-o', out, '-pb', '-oM', mode]
-    argv += ['-c', str(cpus if cpus is not None else 1)] + [str(x) for x in extra]
+    if cpus is not None or style % 3 != 2:
+        argv += ['-c', str(cpus if cpus is not None else 1)]
+    argv += [str(x) for x in extra]
     try:
         args = Args.parse(argv)
         res.args = args
